@@ -340,6 +340,9 @@ func checkC15(c *Check) {
 			c.noPathFrom(apg, "O-C15.2", "a Revoked certificate aborts", "after a Revoked element the aggregation cannot accept", rev, aok, nil)
 		}
 	}
+	// "the TSA chain passes timestamping chain validation": the validator behind that gate must
+	// enforce the profile (every accepting path of it passes every requirement, O-C14.A)
+	c.floor("timestamping profile rules (shared with C14)", 40, shareRules(c, checkC14, []string{"O-C14.A"}, "O-C15.1", "TSA chain profile: "))
 	// (3) envelope side
 	sites := c.P.callSites(func(n string) bool { return n == tsFn })
 	c.CallSites += len(sites)
